@@ -15,6 +15,9 @@ pub const ALPHABET: [&str; 6] = ["\n", "\r", "\t", "a", "中", "ß"];
 /// point at the display cells of exactly those characters") says nothing about them.
 pub const ALPHABET_EDGE: [&str; 6] = ["\n", "\u{0}", "\u{1b}", "\u{7f}", "é", "😀"];
 
+/// Characters whose code point truncated to a byte is LF / CR (narrow U+010A, wide U+4E0A, U+1F60A).
+pub const ALPHABET_LOW: [&str; 6] = ["\n", "\r", "a", "\u{10a}", "\u{4e0a}", "\u{1f60a}"];
+
 #[derive(Clone, Copy, Debug)]
 pub enum Subject {
     Span(usize, usize),
@@ -404,7 +407,7 @@ pub fn run(col: &Collector, thorough: bool, seed: u64, jobs: usize) -> Value {
     vutil::run_workers(jobs, col, |w, n| {
         let mut l = Local::new();
         let mut s = String::new();
-        for (alphabet, limit, class) in [(&ALPHABET, max_len, "exhaustive"), (&ALPHABET_EDGE, max_len.saturating_sub(1), "exhaustive-edge-alphabet")] {
+        for (alphabet, limit, class) in [(&ALPHABET, max_len, "exhaustive"), (&ALPHABET_EDGE, max_len.saturating_sub(1), "exhaustive-edge-alphabet"), (&ALPHABET_LOW, max_len.saturating_sub(1), "exhaustive-low-byte-is-a-line-break")] {
             for len in 0..=limit {
                 let total = vutil::pow(k, len);
                 let mut idx = w as u64;
